@@ -59,3 +59,20 @@ reg('C15', 'exploration',
     'validate(add(s)) accepts, and every single-digit substitution and adjacent transposition (other than 0/9) of every valid '
     'number up to payload length 4 / 5, and of 2 000 / 50 000 seeded long numbers with separators, is rejected.',
     'Trusts vmon/ref/cards.py Luhn. accepts = returns (not False); rejects = raises or returns False.')
+
+reg('C13', 'exploration',
+    'runtime monitor: real pin-block classes (plain, predefined and type()-built mix-ins) driven over PIN/PAN length grids; clear blocks and ciphertexts compared with from-scratch ISO 9564 / DES / AES references; fill freshness observed',
+    'PIN lengths 4..12 x PAN lengths 13..19 x seven class flavours are enumerated with seeded digits (20 / 150 repetitions, each '
+    'digit value forced at each position), supplied fills {1, 2^63, 2^64-1, seeded} and none, TDES keys of 16/24 and AES keys '
+    'of 16/24/32 bytes. Clear block, PIN recovered from clear bytes, ciphertext and PIN recovered from ciphertext are each '
+    'compared with the reference. Freshness: 2 000 / 20 000 format-4 fills never repeat and cover all 64 bit positions.',
+    'Trusts vmon/ref/crypto.py (FIPS known answers; cross-checked against the cryptography package at setup) and vmon/ref/cards.py. '
+    'A finite run cannot decide randomness, only non-repetition and width. Fill 0 is outside the quantifier.')
+
+reg('C14', 'exploration',
+    'runtime monitor: real PVV/KCV/key-combination functions compared with a from-scratch TDES reference; second-scan cases constructed backwards from chosen ciphertexts; metamorphic permutation/duplicate checks',
+    'PIN 4..12 x PAN 13..19 x key lengths 8/16/24 x key index 0..9 through calculate_pvv and both mix-in routes; cases built '
+    'backwards from a chosen ciphertext so that the second decimalisation scan supplies exactly 0,1,2,3 and 4 digits (a run '
+    'missing any d is inconclusive); component lists of 2..5 parts of 16 and 24 bytes with every permutation and a duplicated '
+    'component; KCV lengths 1..16; encrypted zone keys under 16/24-byte master keys.',
+    'Trusts vmon/ref/crypto.py and vmon/ref/cards.py; cryptography is used only to search for plaintexts, never to judge.')
